@@ -469,7 +469,10 @@ impl Memfs {
                         },
                     )?;
                 }
-                self._symlink(guard, dst_path, src.alt())?;
+                // An existing link at the destination is kept
+                if !guard.get_entry(&dst_path).map(|x| x.is_symlink()).unwrap_or(false) {
+                    self._symlink(guard, dst_path, src.alt())?;
+                }
             } else {
                 // `follow`, i.e. pass through to target for links else get a fresh
                 // copy of the same entry which should be fast as we still have a lock
@@ -597,6 +600,13 @@ impl Memfs {
     ) -> RvResult<PathBuf> {
         let link = self._abs(guard, link)?;
         let target = target.as_ref().to_owned();
+
+        // An existing link is never silently kept with whatever target it has
+        if let Some(x) = guard.get_entry(&link) {
+            if x.is_symlink() {
+                return Err(PathError::exists_already(&link).into());
+            }
+        }
 
         // Convert relative links to absolute to ensure they are clean
         let target = self._abs(guard, if !target.is_absolute() { link.dir()?.mash(target) } else { target })?;
